@@ -892,7 +892,8 @@ class TypeEngine:
             if name == "copy":
                 return {cont}
             if name == "update":
-                self._container_store(n.func.value, f, env, pos[0] if pos else set(), dict_update=True)
+                if isinstance(n.func, ast.Attribute):
+                    self._container_store(n.func.value, f, env, pos[0] if pos else set(), dict_update=True)
                 return {NONE}
             return {EXT}
         if cont[0] == "list":
@@ -900,7 +901,7 @@ class TypeEngine:
                 val = pos[-1] if pos else set()
                 if name == "extend":
                     val = elems_of(val)
-                if name != "remove":
+                if name != "remove" and isinstance(n.func, ast.Attribute):
                     self._container_store(n.func.value, f, env, val)
                 return {NONE}
             if name == "pop":
